@@ -80,9 +80,18 @@ def build(case):
     # word list
     nw = rng.randint(1, 12 if rng.random() < 0.3 else 4)
     words = []
+    # pieces of the multi-word built-in entries ("is variably subnetted"): reserved only as a whole phrase, never alone
+    frags = sorted({f for x in builtin if re.search(r"\s", x) for f in x.split()
+                    if f.isalpha() and len(f) >= 5 and f not in builtin and f.lower() not in builtin})
+    frag_words = []
     while len(words) < nw:
         r = rng.random()
-        if r < 0.45:
+        if r < 0.08 and frags:
+            w = rng.choice(frags)
+            if rng.random() < 0.4:
+                w = w[: rng.randint(4, len(w))]
+            frag_words.append(w)
+        elif r < 0.45:
             w = rng.choice(FIXED_WORDS)
         elif r < 0.6 and words:
             # a word that contains / is contained in an earlier one
@@ -135,7 +144,11 @@ def build(case):
         toks = []
         for _ in range(rng.randint(1, 8)):
             r = rng.random()
-            if r < 0.4:
+            if r < 0.12 and frag_words:
+                # the piece of a reserved PHRASE standing alone is an ordinary token: a listed word inside it must go
+                fw = rng.choice(frag_words).lower()
+                toks.append(["planted", casevar(rng, next((f for f in frags if f.startswith(fw)), fw))])
+            elif r < 0.4:
                 w = rng.choice(words)
                 spelled = casevar(rng, w)
                 tok = rng.choice(PREFIXES) + spelled + rng.choice(SUFFIXES)
